@@ -91,7 +91,8 @@ def make_check(name):
                 assert_it = False
                 r.label("below-rank-not-asserted")
         if assert_it:
-            msg = rows_equal(np, c1, c2, fam.exact, fam.rtol, fam.atol)
+            # NaN outputs (finding F27 of C17: degenerate information weights) are compared position-wise as equal here
+            msg = rows_equal(np, c1, c2, fam.exact, fam.rtol, fam.atol, equal_nan=True)
             if msg:
                 r.fail("fit_transform-vs-transform", site, msg + " | params %r" % (spec.get("params") or spec.get("extra") or {}), **tags(name, spec))
         r.nontrivial = True
